@@ -143,7 +143,8 @@ def run(chk, replay=None):
     chk.cov["negative_controls"] = [_negative_control("FramingPerRead.cfg"), _negative_control("FramingStale.cfg"),
                                     _negative_control("FramingLimit.cfg")]
     # ---- 2. behaviours: every composition of every shape (model-checked on the same run) ------
-    streams = fc.model_variants() + fc.corpus_streams() + fc.size_model_variants() + fc.size_streams(SIZE_STREAMS[chk.tier])
+    streams = fc.model_variants() + fc.corpus_streams() + fc.size_model_variants() + fc.size_streams(SIZE_STREAMS[chk.tier]) \
+        + fc.header_variants() + fc.header_streams()
     if not quick:
         streams += fc.long_streams(chk.seed)
     by_sid = {st["sid"]: st for st in streams}
